@@ -1,6 +1,8 @@
 import Poulpy.Lemmas.Lut
 import Poulpy.Lemmas.LutBlind
 import Poulpy.Lemmas.LutCol
+import Poulpy.Lemmas.NoiseAlg
+import Poulpy.Model.NoiseBounds
 /-
 C14 — blind rotation evaluates the lookup table at the encrypted index.
 
@@ -699,5 +701,85 @@ theorem index_error_low (m b : Nat) (limbs : List (List Int)) (left : Bool) (nl 
 example : modSwitch2n 32 2 [[1, -2], [2, 1], [-1, 0]] false = .ok [12, -14] := by rfl
 example : hv 2 (fun i => [1, 2, -1].getD i 0) 2 = 23 ∧ hv 2 (fun i => [-2, 1, 0].getD i 0) 2 = -28 ∧
     (12 + -14 * 1) * 2 ^ 1 = (23 + -28 * 1) + (1 : Int) := by decide
+
+/-! ### Blind rotation with NOISE (the external-product contract discharged at phase level)
+
+`blind_ext_rotates` / `blind_plain_rotates` / `blind_standard_rotates` replace `acc ⊡ BRK_i` by its contract `s_i·acc`.  Here the product
+returns `s_i·acc + η_i`: `Noise.BrMachine` is the executed loop on ciphertexts (accumulator = GLWE, `BRK_i` = prepared GGSW with key
+error `E`), its primitive operations carrying what C04 / C07 / C08 establish for the executed code — `ep_spec` is `C04.ep_decrypts`
+(`m2 = s_i` exact, error term `Σ digit·E − dropped − β^S·head + En`) read in `∞`-norm (**EpCoeffContract**, the one field that is not yet a
+theorem of C04: C04 states the identity with the symbolic error, not its coefficient bound; `NoiseB.epBound` is the formula), `mul_spec` /
+`add_spec` the exact linear operations, `norm_spec` the normalisation of the block.  The ring is `ℤ[X]/(X^N+1)`; for the extended rotation
+`ℤ[Y]/(Y^{N·ext}+1)` via `lut_rotate_interleave` (the `ext` accumulators are the interleaved polynomial; the error of a product on the
+components is the interleaved error, same `∞`-norm). -/
+
+open Noise in
+/-- **`blind_rotation_noise`**: for every block size, number of blocks (`n_lwe = q·block`) and one-hot block key, the executed blind rotation
+decrypts to `X^{Σ a_i s_i}·phase(acc₀)` (`acc₀ = X^{b₀}·LUT`, trivially encrypted) plus an error of `∞`-norm at most
+`2·n_lwe·B + q·U` — linear in `n_lwe` (`B` per external product: `Σ‖digit‖₁·‖E‖_∞` + truncation; `U` the normalisation unit per block). -/
+theorem blind_rotation_noise {R : Type} [CommRing R] {S : Size R} {M : Mono R S} {C G : Type} (m : BrMachine R S M C G) (hB : 0 ≤ m.B)
+    (block : ℕ) (blocks : List (List (ℤ × G))) (hlen : ∀ blk ∈ blocks, blk.length = block) (acc : C)
+    (hkey : ∀ blk ∈ blocks, OneHot (blk.map fun p => m.bit p.2)) :
+    S.ν (m.ph (m.exec acc blocks) - M.X (m.totalRot blocks) * m.ph acc)
+      ≤ 2 * ((blocks.length * block : ℕ) * m.B) + blocks.length * m.U := by
+  have h := m.exec_spec hB blocks acc hkey
+  have hn : BrMachine.nBits blocks = blocks.length * block := by
+    unfold BrMachine.nBits
+    clear h hkey
+    induction blocks with
+    | nil => simp
+    | cons b t ih =>
+      simp only [List.map_cons, List.sum_cons, List.length_cons]
+      rw [ih (fun x hx => hlen x (by simp [hx])), hlen b (by simp)]
+      ring
+  rw [hn] at h
+  exact h
+
+open Noise in
+/-- **`blind_rotation_correct`**, value side: when the rotated table has constant coefficient `v·Δ` (`lut_eval`, `blind_ext_eval`,
+`blind_plain_eval`: `v = ±f[index]`) and `2·(2·n_lwe·B + q·U) < Δ`, rounding the decrypted constant coefficient to the grid gives `v` exactly. -/
+theorem blind_rotation_correct {R : Type} [CommRing R] {S : Size R} {M : Mono R S} {C G : Type} (m : BrMachine R S M C G) (K0 : Coef0 R S)
+    (hB : 0 ≤ m.B) (blocks : List (List (ℤ × G))) (acc : C)
+    (hkey : ∀ blk ∈ blocks, OneHot (blk.map fun p => m.bit p.2))
+    (v Δ : ℤ) (hΔ : 0 < Δ) (hval : K0.c0 (M.X (m.totalRot blocks) * m.ph acc) = v * Δ)
+    (hnum : 2 * (2 * (BrMachine.nBits blocks * m.B) + blocks.length * m.U) < Δ) :
+    (K0.c0 (m.ph (m.exec acc blocks)) + Δ / 2) / Δ = v :=
+  Noise.blind_rotation_correct m K0 hB blocks acc hkey v Δ hΔ hval hnum
+
+/-- **`blind_rotation_correct`**, index side: `index_error` (`idx·2^d = Φ + E`, `|E| ≤ (1 + hw(s))·2^{d−1}`) composed with the LWE noise: if the
+top-limb phase is `Φ = −(i·step)·2^d + ε` (message `i`, `Left` direction) and `(1 + hw(s))·2^{d−1} + |ε| < (step/2)·2^d` — mod-switch drift plus
+LWE noise below half a table step — then `(drift − idx) mod 2N = i·step + e`, `0 < e < step`: the cell hypothesis of `blind_*_eval` /
+`C15.cbt_rows_bit`. -/
+theorem index_in_cell (d step N i : ℕ) (hd : 1 ≤ d) (x0 : Int) (xs sk : List Int) (hbin : ∀ s ∈ sk, s = 0 ∨ s = 1) (ε : ℤ)
+    (hstep : step % 2 = 0) (hΦ : x0 + blkPhase (List.zip xs sk) = -((i * step : ℕ) : ℤ) * 2 ^ d + ε)
+    (hsmall : ((1 + sk.sum.natAbs) * 2 ^ (d - 1) : ℕ) + |ε| < ((step / 2 : ℕ) : ℤ) * 2 ^ d) (hfit : i * step + step ≤ 2 * N) :
+    ∃ e : ℕ, 0 < e ∧ e < step ∧
+      (((step / 2 : ℕ) : ℤ) - (msRound d x0 + blkPhase (List.zip (xs.map (msRound d)) sk))) % (2 * (N : ℤ)) = ((i * step + e : ℕ) : ℤ) := by
+  obtain ⟨h1, h2⟩ := index_error d hd x0 xs sk hbin
+  apply Noise.index_lands d step N i _ _ _ ε hstep h1 hΦ _ hfit
+  have : |(2:ℤ) ^ (d - 1) - msRem d x0 + blkPhase (List.zip (xs.map fun x => 2 ^ (d - 1) - msRem d x) sk)| ≤
+      (((1 + sk.sum.natAbs) * 2 ^ (d - 1) : ℕ) : ℤ) := by
+    rw [Int.abs_eq_natAbs]; exact_mod_cast h2
+  linarith
+
+/-- the numeric condition of `blind_rotation_correct` on the crate's circuit-bootstrapping key (`N = 256`, rank 2, 4 rows of radix `2^12`,
+52 bits, `n_lwe = 77` in 11 blocks, fresh key error `≤ 20` units of `2^-52`), worst case: the accumulated error is `≤ 2^46.2·2^-64 = 2^-17.8`, so
+a table encoded at `2^-13` (row 0 of the bootstrapped GGSW) decodes exactly, one encoded at `2^-26` (row 1) is not covered by the
+worst-case bound (the measured error is far smaller: evidence field `blind_noise`). -/
+theorem blind_condition_test_params :
+    NoiseB.blindOk { n := 256, rank := 2, dnum := 4, b := 12, k := 52, hw := 256 } 77 11 (20 * 2 ^ 12) 13 = true ∧
+    NoiseB.blindOk { n := 256, rank := 2, dnum := 4, b := 12, k := 52, hw := 256 } 77 11 (20 * 2 ^ 12) 26 = false := by decide
+
+/-- non-vacuity: a `BrMachine` over `ℤ` (`X^a = 1`) whose product adds the key's own error -/
+example : ∃ m : Noise.BrMachine ℤ
+    { ν := fun x => |x|, nonneg := abs_nonneg, zero := abs_zero, add_le := abs_add_le, neg := abs_neg }
+    { X := fun _ => 1, X_zero := rfl, X_add := fun _ _ => by simp, isom := fun _ x => by simp } ℤ (Bool × ℤ), m.B = 3 :=
+  ⟨{ ph := id, ep := fun c g => Noise.bitR g.1 * c + max (-3) (min 3 g.2), bit := fun g => g.1, B := 3,
+     ep_spec := by
+       intro c g
+       show |Noise.bitR g.1 * c + max (-3) (min 3 g.2) - Noise.bitR g.1 * c| ≤ 3
+       rw [add_sub_cancel_left, abs_le]; constructor <;> omega,
+     mulXm1 := fun _ _ => 0, mul_spec := by intro a c; simp,
+     add := fun x y => x + y, add_spec := fun _ _ => rfl, norm := id, U := 0, norm_spec := by intro c; simp }, rfl⟩
 
 end C14
